@@ -164,3 +164,47 @@ func TestC12Reg_DaoPercentZeroWedge(t *testing.T) {
 		}
 	}
 }
+
+// TestC12Reg_RootSwitchWedge: a nested chain (id 2 under root chain 1, the root is 1000 blocks ahead) becomes its own
+// root through an approved change-parameter cons/rootChainID = 2. ConformStateToParamUpdate resets the own committee's
+// LastRootHeightUpdated inside that block - but the block's OWN certificate was built under the old root and carries the
+// old root's height (bft sets View.RootHeight from the root chain's height when the height starts). It is handled in
+// the next BeginBlock and writes the foreign height back. The certificate after that carries the chain's own height,
+// which is below it: "invalid certificate root-chain height" in every BeginBlock from then on.
+func TestC12Reg_RootSwitchWedge(t *testing.T) {
+	p := fsm.DefaultParams()
+	p.Consensus.RootChainId = 1
+	g := cs.BuildGenesis(2, []cs.ValSpec{{Key: 0, OutputKey: -1, Stake: 1_000_000}, {Key: 1, OutputKey: -1, Stake: 1_000_000}},
+		[]cs.AcctSpec{{Kind: 0, Key: 0, Amount: 1_000_000}}, nil, p)
+	c, err := cs.New(cs.Opts{ChainID: 2, Genesis: g})
+	if err != nil {
+		t.Fatal(err)
+	}
+	defer c.Close()
+	k := cs.OpKey(0)
+	val, _ := lib.NewAny(&lib.UInt64Wrapper{Value: 2})
+	for h := uint64(1); h <= 8; h++ {
+		spec := cs.BlockSpec{}
+		if h <= 3 {
+			spec.RootHeight = h + 1000 // built while chain 1 was the root
+		}
+		if h == 3 {
+			tx, _, err := c.SignTx(k, &fsm.MessageChangeParameter{ParameterSpace: fsm.ParamSpaceCons, ParameterKey: fsm.ParamRootChainId, ParameterValue: val,
+				StartHeight: 0, EndHeight: 100, Signer: cs.Addr(k)}, 10000, h, "")
+			if err != nil {
+				t.Fatal(err)
+			}
+			spec.Txs = [][]byte{tx}
+		}
+		out, err := c.Block(spec)
+		if err != nil {
+			t.Fatalf("block %d: %v", h, err)
+		}
+		if out.Err != nil {
+			t.Fatalf("WEDGE: block %d cannot be applied after the chain became its own root in block 3: %v", h, out.Err)
+		}
+		if h == 3 && len(out.Results.Failed) != 0 {
+			t.Fatalf("precondition: the parameter change should be accepted: %v", out.Results.Failed[0].Error)
+		}
+	}
+}
